@@ -110,6 +110,17 @@ theorem lane_zero_sel (D : Nat) (a b out : List K) :
   refine ⟨?_, ?_, ?_, ?_⟩ <;> intro c hc <;>
     simp [laneAdd, laneEq, laneBool, laneMulAdd] at hc <;> aesop
 
+/-- **Separator / padding rows (fix F22).** The lane-0 constraint `(1 − active)·outᵢ = 0` forces
+`out = 0` on every inactive row, so a Horner chain that starts after a separator starts from 0. -/
+theorem sep_out_zero (D : Nat) (active : K) (out : List K) (hact : active = 0)
+    (h : ∀ c ∈ (List.range D).map (fun i => ((1 : K) - active) * vget out i), c = 0) :
+    ∀ i < D, vget out i = 0 := by
+  rw [map_range_zero_iff] at h
+  intro i hi
+  have := h i hi
+  rw [hact] at this
+  simpa using this
+
 /-- **Const / Public tables** accept every row: the table has no constraint at all; the value that
 goes on the bus is the row's main-trace cell (`sendInteractions`), which is why a Const row's value is
 not tied to the circuit's constant (finding F4). -/
